@@ -27,7 +27,7 @@ CLAIMED = {
     "C07": dict(
         level="proof",
         technique="Lean 4 theorems about shared_attr_info / generate_body / expand_enum + correspondence + every variant printed with the real macro against the documented rule",
-        text="Lean theorems: an enum-level literal mentioning _variant wraps every variant around the variant's own text (wraps_every_variant), the bare {_variant} is the identity, a literal without _variant is used only for unattributed variants, _variant with a specifier and Debug enum-level literals are rejected; model compared with the working tree on generated enums; 120 generated enums are printed variant by variant with the real macro and compared with a reference written with plain format! calls",
+        text="Lean theorems: an enum-level literal mentioning _variant wraps every variant around the variant's own text (wraps_every_variant), the bare {_variant} is the identity, under Pointer the wrapped single field is dereferenced so that `_variant` is the pointer the field holds (wrapped_pointer_field_prints_held_pointer, wrapped_field_deref_iff_pointer), a literal without _variant is used only for unattributed variants, _variant with a specifier and Debug enum-level literals are rejected; model compared with the working tree on generated enums; 120 generated enums are printed variant by variant with the real macro and compared with a reference written with plain format! calls",
         note="Lean kernel; model tied by differential run; convert_case is a parameter; the reference text is produced by std's format! in the same process",
         ref="DESIGN.md §4 C07"),
     "C02": dict(
@@ -39,19 +39,19 @@ CLAIMED = {
     "C16": dict(
         level="proof",
         technique="Lean 4 theorems about a model of the token scanner + correspondence on token streams + syn-full as the expression-grammar oracle",
-        text="Lean theorems over all token streams: what the scanner returns plus what it leaves is the input (verbatim re-emission), it stops only at a top-level comma, Ident iff a single identifier, commas inside delimited groups / `::<..>` / `<..>::` / closure parameter lists (angle-balanced, any nesting depth) never split; three kernel-checked witnesses document known findings (binary `|`, cast to a generic type, `a < b, c > ::d`). The model is compared with the working-tree FmtAttribute parsing on ~6.5k generated and mutated argument lists, and the implementation with syn's full Expr parser on the same lists",
+        text="Lean theorems over all token streams: what the scanner returns plus what it leaves is the input (verbatim re-emission), it stops only at a top-level comma, for the WHOLE list the arguments found are the input cut at commas, token for token and in order (args_reemitted_verbatim), any number of arguments made of plain tokens and delimited groups is split at exactly the top-level commas (plain_list_split_at_commas), Ident iff a single identifier, commas inside delimited groups / `::<..>` / `<..>::` / closure parameter lists (angle-balanced, any nesting depth) never split; three kernel-checked witnesses document known findings (binary `|`, cast to a generic type, `a < b, c > ::d`). The model is compared with the working-tree FmtAttribute parsing on ~6.5k generated and mutated argument lists, and the implementation with syn's full Expr parser on the same lists",
         note="Lean kernel; proc_macro2 tokenisation shared by all parties; syn(full) stands for Rust's grammar; four known findings attributed by construct (argument parenthesised => split correct)",
         ref="DESIGN.md §4 C16"),
     "C09": dict(
         level="proof",
         technique="Lean 4 theorem: the two-index-space selection of error.rs equals the documented rules stated on positions among all fields + exhaustive in-process enumeration of the shape grid + address comparison with the real macro",
-        text="Lean theorem source_is_documented (all field counts, all attribute placements, all positions of ignored fields): the enabled-position the code selects, converted back, is the field the documented rules select, errors included; returned fields are never ignored; double #[error(source)] is an error. The model and a second (Python) statement of the rules are compared with the working-tree expansion on the whole grid of 0..3 fields x 8 attribute forms x names x types (quick: all shapes with <= 2 fields + 9000 three-field shapes; thorough: exhaustive), and 180 shapes are compiled (nightly, real macro) to compare the address source() returns with the addresses of the fields",
+        text="Lean theorem source_is_documented (all field counts, all attribute placements, all positions of ignored fields): the enabled-position the code selects, converted back, is the field the documented rules select, errors included; returned fields are never ignored; double #[error(source)] is an error. An ignored variant has no source whatever its fields carry (ignored_variant_is_none); a variant that is not ignored is a struct of the same shape (enabled_variant_is_documented). The model and a second (Python) statement of the rules are compared with the working-tree expansion on the whole grid of 0..3 fields x 8 attribute forms x names x types (quick: all shapes with <= 2 fields + 9000 three-field shapes; thorough: exhaustive), and 180 shapes are compiled (nightly, real macro) to compare the address source() returns with the addresses of the fields",
         note="Lean kernel; model tied by differential run on the grid; as_dyn_error dispatch and the nightly-only provide() half are not modelled",
         ref="DESIGN.md §4 C09"),
     "C12": dict(
         level="proof",
         technique="Lean 4 theorems by induction over variant lists (constants == Rust's discriminant rule; match == inverse of the cast) + expansion correspondence + full 8/16-bit domains with the real macro",
-        text="Lean theorems for every enum layout and every integer: the reconstructed constants `(last explicit) + offset` equal the discriminants of Rust's rule (const_is_discriminant, induction with the (last, inc) invariant), try_from(n) = Ok(v) iff v is the field-less variant with discriminant n, otherwise Err (try_from_iff), round trip with the cast, repr detection. The model (repr, constant tokens, arms) is compared with the working-tree expansion on 3000 generated layouts incl. the impl header; 40 enums are run with the real macro over the whole i8/u8/i16/u16 domain (wider reprs: discriminants +-1 and extremes) against `variant as repr`",
+        text="Lean theorems for every enum layout and every integer: the reconstructed constants `(last explicit) + offset` equal the discriminants of Rust's rule (const_is_discriminant, induction with the (last, inc) invariant), also in the representation type: the offset is cast and added modulo the width, and whenever rustc accepts the enum the constants are the discriminants for every width and number of variants (consts_in_repr_are_discriminants; i8_far_variant_witness is the kernel-checked witness of the pinned tree's defect), try_from(n) = Ok(v) iff v is the field-less variant with discriminant n, otherwise Err (try_from_iff), round trip with the cast, repr detection. The model (repr, constant tokens, arms) is compared with the working-tree expansion on 3000 generated layouts incl. the impl header; 40 enums are run with the real macro over the whole i8/u8/i16/u16 domain (wider reprs: discriminants +-1 and extremes) against `variant as repr`",
         note="Lean kernel; model tied by differential run; rustc's const evaluation modelled as integer arithmetic; discriminant expressions enter the model as their value (the parenthesisation of the emitted tokens is covered by the token-level correspondence and the behaviour run)",
         ref="DESIGN.md §4 C12"),
     "C13": dict(
@@ -63,7 +63,7 @@ CLAIMED = {
     "C06": dict(
         level="proof",
         technique="Lean 4 theorems relating a model of the crate's DebugTuple/Padded to a model of core's DebugTuple/PadAdapter (fields are arbitrary functions of the formatter options) + both models run against the real code + type pairs compared with std's derive",
-        text="Lean theorems for every name, every number of fields and every field behaviour: the crate's tuple builder writes what core's writes in every non-alternate configuration (tuple_eq_std_flat) and in pretty mode whenever the fields do not depend on the non-alternate options (tuple_eq_std_pretty); padding is chunk-insensitive; the derive omits skipped fields and closes with finish_non_exhaustive iff one is skipped. The full statement is false on this tree (kernel-checked counterexample = the known finding). Both models are compared with the real src/fmt.rs and the real core builders on 6k scripted runs; the Debug expander model with the working tree; 70 generated type pairs (raw identifiers, generics, enums, skip) are printed under 14 specs + nesting against std's derive",
+        text="Lean theorems for every name, every number of fields and every field behaviour: the crate's tuple builder writes what core's writes in every non-alternate configuration (tuple_eq_std_flat) and in pretty mode whenever the fields do not depend on the non-alternate options (tuple_eq_std_pretty); padding is chunk-insensitive; the `split_inclusive` loop of Padded::write_str, replayed one write_str call at a time, computes the character-level padding for every chunking (padded_loop_is_pad, padded_chunking_independent) and the call-by-call builder (field counter, empty_name) refines the text model (tuple_code_eq_model); values nested to ANY depth through tuple and struct builders print identically under {:?} and {:#?} whatever the leaves do (nested_eq_std), and under every formatter configuration when the leaves ignore it (nested_eq_std_all_options); 3000 random trees are printed by the real builders and by the tree model; the derive omits skipped fields and closes with finish_non_exhaustive iff one is skipped. The full statement is false on this tree (kernel-checked counterexample = the known finding). Both models are compared with the real src/fmt.rs and the real core builders on 6k scripted runs; the Debug expander model with the working tree; 70 generated type pairs (raw identifiers, generics, enums, skip) are printed under 14 specs + nesting against std's derive",
         note="Lean kernel; partial: the pretty x non-default-options case is a known finding; writer errors (fmt::Error) are not modelled",
         ref="DESIGN.md §4 C06"),
     "C10": dict(
@@ -93,7 +93,7 @@ CLAIMED = {
     "C15": dict(
         level="proof",
         technique="Lean 4 theorem over all caller scopes about a name-resolution model + kernel-decided closure of the table of every quote!/parse_quote! template regenerated from the source by a translator on every run + hostile-scope compiles and behaviour digest with the real macro",
-        text="Lean: for every two caller scopes that agree on `derive_more`, a template without escaping heads resolves every name identically (resolve_independent, all scopes, no bound); an escaping path head really is a dependency (escaping_path_depends); heads are path heads, `::crate` paths, macros, methods (literal or interpolated name) and associated functions called through a type path; the table of all 247 templates of impl/src, regenerated from the working tree by the translator on every run, has no escaping head (all_templates_closed, decide +kernel), hence expansions_scope_independent for the current source. Tie: the translator is checked on every run (every template re-prints into its source span; id table vs names by gen-selfcheck; identifier sequences of the Lean table == extraction). Real macro: a 39-item corpus covering all 50 derives and their attribute modes compiled in a plain module, a #[no_implicit_prelude] module and a module redefining 80 prelude types / variants / traits (with the prelude traits' methods, blanket-implemented) / macros, plus a #![no_std] crate; the 127-entry behaviour digest must be identical in all modules. thorough: one module per redefined name and kind",
+        text="Lean: for every two caller scopes that agree on `derive_more`, a template without escaping heads resolves every name identically (resolve_independent, all scopes, no bound); an escaping path head really is a dependency (escaping_path_depends); so is a crate named through a leading `::` other than the accepted `::std` of the nightly-only backtrace code, because the caller's extern prelude can re-bind it (escaping_extern_depends); heads are path heads, `::crate` paths, macros, methods (literal or interpolated name) and associated functions called through a type path; the table of all 247 templates of impl/src, regenerated from the working tree by the translator on every run, has no escaping head (all_templates_closed, decide +kernel), hence expansions_scope_independent for the current source. Tie: the translator is checked on every run (every template re-prints into its source span; id table vs names by gen-selfcheck; identifier sequences of the Lean table == extraction). Real macro: a 39-item corpus covering all 50 derives and their attribute modes compiled in a plain module, a #[no_implicit_prelude] module and a module redefining 80 prelude types / variants / traits (with the prelude traits' methods, blanket-implemented) / macros, plus a #![no_std] crate; the 127-entry behaviour digest must be identical in all modules. thorough: one module per redefined name and kind",
         note="Lean kernel; model regenerated by translator; rustc's name resolution is modelled (first segment / macro / method lookups), validated by the hostile compiles; built-in attributes and primitive-type shadowing are outside the model",
         ref="DESIGN.md §4 C15"),
     "C19": dict(
